@@ -159,6 +159,7 @@ class FunctionContract:
     nl_mode = "nra"
     budget_s = 600
     job_budget_s = 900
+    wall_ms = None
 
     def shims(self):
         return {}
@@ -261,6 +262,8 @@ def _run_symbolic(fc, res, tier, exclusions):
         E.rlimit = fc.rlimit
     E.nl_mode = fc.nl_mode
     E.budget_s = fc.budget_s
+    if fc.wall_ms:
+        E.wall_ms = fc.wall_ms
     Engine.current = E
     holder = {}
 
